@@ -124,6 +124,9 @@ def random_reject_op(rng, sim):
          "a": -1, "alpha": R(1), "beta": R(Fraction(1, 2)), "exp": R(2), "smooth": 1},
         {"k": "integral_match", "trule": "simpson", "rrule": "rectangle", "alpha": R(1)},
         {"k": "integral_match", "trule": "trapezoid", "rrule": "midpoint", "alpha": R(1)},
+        # an unknown search-strategy name with valid rules: refused on a fresh object (working = reference abscissae) as after reshaping
+        {"k": "integral_match", "trule": "trapezoid", "rrule": "rectangle", "alpha": R(1), "fstrategy": rng.choice(["nearest", "Closest", "", "lowest"])},
+        {"k": "integral_match", "trule": "rectangle", "rrule": "rectangle", "alpha": R(1), "fstrategy": rng.choice(["nearest", " closest", "HIGHER"])},
         {"k": "interpolate_grid", "q": [R(x[0] + Fraction(1, 64)), R(x[-1])], "method": "linear"},
         {"k": "interpolate_grid", "q": [R(x[0]), R((x[0] + x[-1]) / 2), R(x[-1] + 1)], "method": "linear", "qcontainer": "list"},
         {"k": "interpolate_n", "n": 5, "method": "quadratic"},
